@@ -170,6 +170,41 @@ def _sites (repo, f):
           if verdict == 'proved': continue
           if verdict == 'undecided': und.append(Site(f, n, 'index', 'IndexError', None, what + ": " + why)); continue
           out.append(Site(f, n, 'index', 'IndexError', None, what + ": " + why))
+  # an element read from a fixed slice of the frame kept in a field or local (`self.magic = raw[236:240]` ... `self.magic[i]`):
+  # a slice never raises, it is just shorter - the element read needs the frame to reach that far
+  slices = {}
+  for t, v, st, k in q.stores_in(f.node, nested=False):
+    if k != 'assign' or v is None or not (isinstance(v, ast.Subscript) and isinstance(v.slice, ast.Slice) and isinstance(v.value, ast.Name) and v.value.id in bufs): continue
+    lo = repo.try_const(mod, v.slice.lower, f.cls) if v.slice.lower is not None else 0
+    hi = repo.try_const(mod, v.slice.upper, f.cls) if v.slice.upper is not None else None
+    if isinstance(lo, int) and (hi is None or isinstance(hi, int)) and isinstance(t, (ast.Name, ast.Attribute)):
+      key = norm(t)
+      slices[key] = None if key in slices else (v.value.id, lo, hi)        # a name bound to two different slices is not tracked
+  slices = dict((k_, v_) for k_, v_ in slices.items() if v_ is not None)
+  if slices:
+    for n in g.nodes:
+      a = n.ast
+      if a is None or n.kind in ('def', 'branch', 'handler', 'for', 'join'): continue
+      for x in walk_no_nested(a) if not isinstance(a, ast.With) else []:
+        if not (isinstance(x, ast.Subscript) and isinstance(x.ctx, ast.Load) and not isinstance(x.slice, ast.Slice) and norm(x.value) in slices): continue
+        # other stores to the same target would make the binding ambiguous
+        if len([1 for t, v, st, k in q.stores_in(f.node, nested=False) if norm(t) == norm(x.value)]) != 1: continue
+        buf, lo, hi = slices[norm(x.value)]
+        idx = repo.try_const(mod, x.slice, f.cls)
+        if not isinstance(idx, int) and isinstance(x.slice, ast.Name):
+          # loop variable of an enclosing `for i in range(N)`
+          for st_, h_, af_ in g.loop_nodes:
+            if isinstance(st_, ast.For) and isinstance(st_.target, ast.Name) and st_.target.id == x.slice.id and isinstance(st_.iter, ast.Call) and call_name(st_.iter) == 'range' and len(st_.iter.args) == 1 \
+               and any(y is x for b_ in st_.body for y in ast.walk(b_)):
+              nmax = repo.try_const(mod, st_.iter.args[0], f.cls)
+              if isinstance(nmax, int) and nmax > 0: idx = nmax - 1
+        if not isinstance(idx, int) or idx < 0: continue
+        if _contained_locally(g, n, 'IndexError'): continue
+        verdict, why = _prove_len(repo, f, g, n, buf, ast.Constant(value=lo + idx + 1))
+        what = "index `%s` (with `%s = %s[%s:%s]`)" % (norm(x), norm(x.value), buf, lo, hi if hi is not None else '')
+        if verdict == 'proved': continue
+        if verdict == 'undecided': und.append(Site(f, n, 'index', 'IndexError', None, what + ": " + why)); continue
+        out.append(Site(f, n, 'index', 'IndexError', None, what + ": " + why))
   return out, und, g
 
 def run (ctx):
@@ -443,6 +478,91 @@ def run (ctx):
               ctx.ob('R-DEF', sf, "`%%%s` of self.%s is not reached while the field is still None" % (sp_, a_.attr), guarded,
                      "guarded" if guarded else
                      "%s.__str__ formats self.%s with %%%s; __init__ sets it to None and parse() can return before assigning it (truncated frame): str()/dump() of the parse result raises TypeError" % (cls.name, a_.attr, sp_), (m, x), 'D4')
+  # (d') the same through one call: __str__ hands a still-None field to a helper that formats its argument numerically
+  def numeric_params (fn):
+    """parameters of fn that reach a numeric % conversion without a None test"""
+    out = set(); gf_ = q.cfg_of(fn)
+    for x in ast.walk(fn.node):
+      if isinstance(x, ast.BinOp) and isinstance(x.op, ast.Mod) and isinstance(x.left, ast.Constant) and isinstance(x.left.value, str):
+        specs = _re.findall(r'%(?!%)[#0\- +]*(?:\d+)?(?:\.\d+)?([diouxXeEfFgGcrsab])', x.left.value)
+        args = x.right.elts if isinstance(x.right, ast.Tuple) else [x.right]
+        if len(specs) != len(args): continue
+        for sp_, a_ in zip(specs, args):
+          if sp_ in 'diouxXeEfFgGc' and isinstance(a_, ast.Name) and a_.id in fn.params:
+            nx = q.enclosing_stmt_node(gf_, x)
+            fs = q.fact_strs(gf_, nx) if nx is not None else []
+            if not any(f_ in ('%s is not None' % a_.id, '%s:truthy' % a_.id) or (f_.startswith('isinstance(%s, ' % a_.id) and f_.endswith(':truthy')) for f_ in fs): out.add((a_.id, sp_))
+    return out
+  pu = repo.mod('lib.packet.packet_utils')
+  for m in mods.values():
+    for cls in m.classes.values():
+      sf = cls.methods.get('__str__'); init = cls.methods.get('__init__'); pf = cls.methods.get('parse')
+      if sf is None or init is None or pf is None: continue
+      none_fields = set(t.attr for t, v, st, k in q.stores_in(init.node) if isinstance(t, ast.Attribute) and norm(t.value) == 'self' and isinstance(v, ast.Constant) and v.value is None)
+      if not none_fields or not q.returns_of(pf.node): continue
+      gs_ = q.cfg_of(sf)
+      for c in calls_in(sf.node):
+        if not isinstance(c.func, ast.Name): continue
+        callee = m.funcs.get(c.func.id) or pu.funcs.get(c.func.id)
+        if callee is None: continue
+        np_ = numeric_params(callee)
+        for i, a_ in enumerate(c.args):
+          if isinstance(a_, ast.Attribute) and norm(a_.value) == 'self' and a_.attr in none_fields and i < len(callee.params) and callee.params[i] in [x_ for x_, s_ in np_]:
+            nx = q.enclosing_stmt_node(gs_, c)
+            fs = q.fact_strs(gs_, nx) if nx is not None else []
+            guarded = any(('self.%s is not None' % a_.attr) in f_ or 'self.parsed:truthy' in f_ or f_ == 'self.%s:truthy' % a_.attr for f_ in fs)
+            ctx.ob('R-DEF', sf, "`%s` is not reached while self.%s is still None" % (norm(c)[:40], a_.attr), guarded, "guarded" if guarded else
+                   "%s.__str__ (its own, so outside packet_base's catch-all) passes self.%s to %s, which formats it numerically; __init__ sets the field to None and parse() can return before assigning it "
+                   "(truncated frame): str()/dump() of the parse result raises TypeError" % (cls.name, a_.attr, callee.name), (m, c), 'D4')
+  # (e) one-octet length fields on the way out: a value whose length is written with bytes((len(v),)) must have passed the
+  #     "longer than 255 -> split" test *in its final form*: no redefinition of the variable between that test and the write
+  n_len8 = 0
+  for m in mods.values():
+    for cls in m.classes.values():
+      for f in cls.methods.values():
+        helpers = {}
+        for d in [x for x in walk_no_nested(f.node) if isinstance(x, ast.FunctionDef)]:
+          ps = [a.arg for a in d.args.args]
+          for x in ast.walk(d):
+            if isinstance(x, ast.Call) and call_name(x) == 'bytes' and len(x.args) == 1 and isinstance(x.args[0], ast.Tuple) and len(x.args[0].elts) == 1:
+              e0 = x.args[0].elts[0]
+              if isinstance(e0, ast.Call) and call_name(e0) == 'len' and e0.args and isinstance(e0.args[0], ast.Name) and e0.args[0].id in ps:
+                helpers[d.name] = ps.index(e0.args[0].id)
+        if not helpers: continue
+        g = q.cfg_of(f)
+        for n in g.nodes:
+          for c in q.node_calls(n):
+            if not (isinstance(c.func, ast.Name) and c.func.id in helpers and helpers[c.func.id] < len(c.args)): continue
+            a = c.args[helpers[c.func.id]]
+            if not isinstance(a, ast.Name): continue
+            n_len8 += 1
+            IN, defn = q.reaching_defs(g, a.id)
+            defs_ = [d for d in IN[n] if d is not g.entry]
+            # element of a list built from <=255-byte slices
+            def bounded_elements (d):
+              tt, v, kind = defn[d]
+              if kind != 'for': return False
+              it = d.ast.iter if isinstance(d.ast, ast.For) else None
+              if not isinstance(it, ast.Name): return False
+              srcs = [v2 for t2, v2, st2, k2 in q.stores_in(f.node, nested=False) if isinstance(t2, ast.Name) and t2.id == it.id and isinstance(v2, ast.ListComp)]
+              return bool(srcs) and all(isinstance(v2.elt, ast.Subscript) and isinstance(v2.elt.slice, ast.Slice) for v2 in srcs)
+            if defs_ and all(bounded_elements(d) for d in defs_):
+              ctx.ob('R-DOM', f, "`%s`: the value fits the one-octet length field" % norm(c)[:40], True, "element of a list of <=255-byte slices", (m, c), 'D4'); continue
+            heads = [h_ for st_, h_, af_ in g.loop_nodes]
+            tests = [b for b in g.nodes if b.kind == 'cond' and isinstance(b.ast, ast.Compare) and norm(b.ast.left) == 'len(%s)' % a.id and isinstance(b.ast.ops[0], (ast.Gt, ast.GtE, ast.Lt, ast.LtE))
+                     and n in g.reachable(b, avoid=heads, exc=False)]
+            if not tests:
+              ctx.undecided('R-DOM', f, "`%s`: the value fits the one-octet length field" % norm(c)[:40], "no length test on `%s` precedes the call" % a.id, (m, c), 'D4'); continue
+            not_list = any(f_ == 'isinstance(%s, list):falsy' % a.id for f_ in q.fact_strs(g, n))
+            late = []
+            for d in defs_:
+              tt, v, kind = defn[d]
+              if not_list and isinstance(v, (ast.List, ast.ListComp)): continue           # the split itself; excluded here by the isinstance test
+              if all(d in g.reachable(t_, avoid=heads, exc=False) for t_ in tests): late.append(d)
+            ctx.ob('R-DOM', f, "`%s`: the value fits the one-octet length field" % norm(c)[:40], not late, "every definition of `%s` precedes the length test" % a.id if not late else
+                   "`%s` is redefined by `%s` after the test `%s`: the value whose length is written was never compared with 255 - an option longer than that makes bytes((len(v),)) raise ValueError when the parsed packet is packed again"
+                   % (a.id, late[0].text(40), norm(tests[0].ast)), (m, c), 'D4')
+  ctx.stat('one-octet length writes through helpers', n_len8)
   # ---- D4 printing / re-serialising ---------------------------------------------------------------------------
   pb = repo.cls('lib.packet.packet_base', 'packet_base')
   st = pb.methods.get('__str__')
